@@ -158,11 +158,11 @@ def build():
     full_img = lambda tag: (lambda s: lentil.propagate_dft(wf(tag)(s), DU, shape=(6, 6), oversample=1))          # one Field covering the whole frame
     full_pup = lambda tag: (lambda s: lentil.Wavefront(WL) * lentil.Pupil(amplitude=rm.generic_real((6, 5), s, tag=tag, lo=0.5, hi=1.0), pixelscale=DX, focal_length=Z))
     add('wavefront.field', ['C07', 'C02', 'C03'], lambda w: w.field, lambda s: dict(w=wf(62)(s)),
-        alts=dict(w=[wf(63), wf(64, seg=True), image_wf(65), image_wf(66, seg=True, fit=True), image_wf(67, seg=True), full_img(68), full_pup(69)]))
+        alts=dict(w=[wf(63), wf(64, seg=True), image_wf(65), image_wf(66, seg=True, fit=True), image_wf(67, seg=True), full_img(68), full_pup(69)]), alias_ok=False)
     add('wavefront.intensity', ['C07', 'C05', 'C03'], lambda w: w.intensity, lambda s: dict(w=wf(62)(s)),
-        alts=dict(w=[wf(63), wf(64, seg=True), image_wf(65), image_wf(66, seg=True, fit=True), image_wf(67, seg=True), full_img(68), full_pup(69)]))
+        alts=dict(w=[wf(63), wf(64, seg=True), image_wf(65), image_wf(66, seg=True, fit=True), image_wf(67, seg=True), full_img(68), full_pup(69)]), alias_ok=False)
     add('wavefront.views-twice', ['C07', 'C05', 'C03'], lambda w: (w.intensity, w.field, w.intensity, w.insert(np.zeros(tuple(w.shape)), weight=2.0), w.field),
-        lambda s: dict(w=image_wf(67, seg=True)(s)), alts=dict(w=[image_wf(66, seg=True, fit=True), wf(64, seg=True), image_wf(65)]))
+        lambda s: dict(w=image_wf(67, seg=True)(s)), alts=dict(w=[image_wf(66, seg=True, fit=True), wf(64, seg=True), image_wf(65), full_img(68)]), alias_ok=False)
     add('wavefront.insert', ['C07'], lambda w, out, weight: w.insert(out, weight=weight),
         lambda s: dict(w=image_wf(65)(s), out=np.zeros((6, 6)), weight=1),
         alts=dict(w=[image_wf(66, seg=True, fit=True), image_wf(67, seg=True)], out=[lambda s: np.full((6, 6), 2.0), lambda s: np.zeros((8, 7))], weight=[K(0.25), K(3)]),
